@@ -184,14 +184,24 @@ theorem ensure_MA_some {dk cm : Kvs} (v : J) (h : lookup "metadata" dk = some (.
     liftD (ensure (.obj dk) MA v) = .ok (annShape dk cm v) := by
   simp [MA, ensure, h, liftD, bind, Except.bind, pure, Except.pure, annShape]
 
-theorem metaOK_obj (l : Kvs) : metaOK (.obj l) = match lookup "metadata" l with
-    | none => true
-    | some (.obj mm) => (match lookup "annotations" mm with
-        | none => true
-        | some (.obj _) => true
-        | some _ => false)
-    | some _ => false := by
-  simp only [metaOK]
+theorem metaOK_of_none {l : Kvs} (h : lookup "metadata" l = none) : metaOK (.obj l) = true := by
+  simp [metaOK, h]
+
+theorem metaOK_of_some_none {l mm : Kvs} (h : lookup "metadata" l = some (.obj mm))
+    (ha : lookup "annotations" mm = none) : metaOK (.obj l) = true := by
+  simp [metaOK, h, ha]
+
+theorem metaOK_of_some_obj {l mm a : Kvs} (h : lookup "metadata" l = some (.obj mm))
+    (ha : lookup "annotations" mm = some (.obj a)) : metaOK (.obj l) = true := by
+  simp [metaOK, h, ha]
+
+theorem stage2_of_no_ann {e : J} (h : metaGet e "annotations" = none) : stage2 e = e := by
+  simp [stage2, filterAnnotations, h]
+
+theorem stage2_annShape (dk cm A : Kvs) :
+    stage2 (annShape dk cm (.obj A)) =
+      annShape dk cm (.obj (A.filter (fun kv => keepAnnotation (markedPrefixes (keys A)) kv.1))) := by
+  simp only [stage2, annPrefixes, metaGet_annShape, filterAnnotations_annShape]
 
 theorem removeEmptyStanzas_eq {e e' : J}
     (h : dropIfFalsy (metaDropIfFalsy (metaDropIfFalsy e "annotations") "labels") "metadata" =
@@ -227,15 +237,15 @@ theorem tail_caseA (ig extra : List (List String)) (src : J) {dk cm : Kvs}
     | obj l3 =>
       have hl3 : lookup "metadata" l3 = some (.obj cm) := by simpa [get?, hmd] using g
       simp only [mapOk, setTop]
-      have hok' : metaOK (.obj (J.insert "metadata" (.obj (J.insert "annotations" (.obj []) cm)) l3)) = true := by
-        simp [metaOK_obj, lookup_insert_same]
-      have hok : metaOK (.obj l3) = true := by simp [metaOK_obj, hl3, hca]
+      have hok' : metaOK (.obj (J.insert "metadata" (.obj (J.insert "annotations" (.obj []) cm)) l3)) = true :=
+        metaOK_of_some_obj (lookup_insert_same _ _ _) (lookup_insert_same _ _ _)
+      have hok : metaOK (.obj l3) = true := metaOK_of_some_none hl3 hca
       simp only [hok, hok', Bool.not_true, Bool.false_eq_true, if_false]
       congr 1
       apply removeEmptyStanzas_eq
       have h1 : metaDropIfFalsy (.obj (J.insert "metadata" (.obj (J.insert "annotations" (.obj []) cm)) l3)) "annotations"
           = .obj l3 := by
-        rw [metaDropIfFalsy_falsy (lookup_insert_same _ _ _) (lookup_insert_same _ _ _) (by rfl)]
+        rw [metaDropIfFalsy_falsy (v := .obj []) (lookup_insert_same _ _ _) (lookup_insert_same _ _ _) (by rfl)]
         rw [insert_insert, erase_insert_same, erase_of_not_hasKey _ ((lookup_none_iff _ _).1 hca), insert_self hl3]
       have h2 : metaDropIfFalsy (.obj l3) "annotations" = .obj l3 :=
         metaDropIfFalsy_none (by simp [metaGet_obj, hl3, hca])
@@ -266,15 +276,15 @@ theorem tail_caseB (ig extra : List (List String)) (src : J) {dk : Kvs}
       have hl3 : lookup "metadata" l3 = some (.obj [("annotations", .obj [])]) := by
         simpa [get?, lookup_insert_same, J.insert] using g
       simp only [mapOk, eraseTop]
-      have hok' : metaOK (.obj l3) = true := by simp [metaOK_obj, hl3, lookup_cons]
-      have hok : metaOK (.obj (erase "metadata" l3)) = true := by simp [metaOK_obj, lookup_erase_same]
+      have hok' : metaOK (.obj l3) = true := metaOK_of_some_obj (a := []) hl3 (by simp [lookup_cons])
+      have hok : metaOK (.obj (erase "metadata" l3)) = true := metaOK_of_none (lookup_erase_same _ _)
       simp only [hok, hok', Bool.not_true, Bool.false_eq_true, if_false]
       congr 1
       apply removeEmptyStanzas_eq
       have hne : metaGet (.obj (erase "metadata" l3)) "annotations" = none := by simp [metaGet_obj, lookup_erase_same]
       have hne2 : metaGet (.obj (erase "metadata" l3)) "labels" = none := by simp [metaGet_obj, lookup_erase_same]
       rw [metaDropIfFalsy_none hne, metaDropIfFalsy_none hne2]
-      rw [metaDropIfFalsy_falsy hl3 (by simp [lookup_cons]) (by rfl)]
+      rw [metaDropIfFalsy_falsy (v := .obj []) hl3 (by simp [lookup_cons]) (by rfl)]
       have h3 : metaGet (.obj (J.insert "metadata" (.obj (erase "annotations" [("annotations", .obj [])])) l3)) "labels" = none := by
         simp [metaGet_obj, lookup_insert_same, erase]
       rw [metaDropIfFalsy_none h3]
@@ -307,27 +317,19 @@ theorem baseBuild_firstAnn (ig extra : List (List String))
     rcases pickStep_ML_shape hd (lookup_metadata_erase4 kvs) with rfl | ⟨lv, rfl⟩
     · have hn := lookup_metadata_erase4 kvs
       rw [ensure_MA_none _ hn]
-      simp only [tailBuild, stage2, annPrefixes, metaOK_annShape, metaGet_annShape, filterAnnotations_annShape, hfil, hcong]
-      have hok : metaOK (.obj (erase4 kvs)) = true := by simp [metaOK_obj, hn]
-      have hst : filterAnnotations (keepAnnotation (match metaGet (.obj (erase4 kvs)) "annotations" with
-          | some (.obj anns) => markedPrefixes (keys anns)
-          | _ => [])) (.obj (erase4 kvs)) = .obj (erase4 kvs) := by
-        simp [filterAnnotations, metaGet_obj, hn]
-      simp only [hok, hst, Bool.not_true, Bool.false_eq_true, if_false]
+      simp only [tailBuild]
+      rw [stage2_annShape, hfil, stage2_of_no_ann (by simp [metaGet_obj, hn]), metaOK_annShape, metaOK_of_none hn, hcong]
+      simp only [Bool.not_true, Bool.false_eq_true, if_false]
       exact tail_caseB ig extra (.obj kvs) hn hx
     · have hs : lookup "metadata" (J.insert "metadata" (.obj [("labels", lv)]) (erase4 kvs)) = some (.obj [("labels", lv)]) :=
         lookup_insert_same _ _ _
+      have hla : lookup "annotations" [("labels", lv)] = none := by simp [lookup_cons]
       rw [ensure_MA_some _ hs]
-      simp only [tailBuild, stage2, annPrefixes, metaOK_annShape, metaGet_annShape, filterAnnotations_annShape, hfil, hcong]
-      have hok : metaOK (.obj (J.insert "metadata" (.obj [("labels", lv)]) (erase4 kvs))) = true := by
-        simp [metaOK_obj, hs, lookup_cons]
-      have hst : filterAnnotations (keepAnnotation (match metaGet (.obj (J.insert "metadata" (.obj [("labels", lv)]) (erase4 kvs))) "annotations" with
-          | some (.obj anns) => markedPrefixes (keys anns)
-          | _ => [])) (.obj (J.insert "metadata" (.obj [("labels", lv)]) (erase4 kvs))) =
-          .obj (J.insert "metadata" (.obj [("labels", lv)]) (erase4 kvs)) := by
-        simp [filterAnnotations, metaGet_obj, hs, lookup_cons]
-      simp only [hok, hst, Bool.not_true, Bool.false_eq_true, if_false]
-      exact tail_caseA ig extra (.obj kvs) hs (by simp [lookup_cons]) hx
+      simp only [tailBuild]
+      rw [stage2_annShape, hfil, stage2_of_no_ann (by simp [metaGet_obj, hs, hla]), metaOK_annShape,
+        metaOK_of_some_none hs hla, hcong]
+      simp only [Bool.not_true, Bool.false_eq_true, if_false]
+      exact tail_caseA ig extra (.obj kvs) hs hla hx
 
 theorem essence_firstAnn (cfg : Cfg) (extra : List (List String))
     (hm : lookup "metadata" kvs = some (.obj m)) (ha : lookup "annotations" m = none)
